@@ -303,9 +303,9 @@ func (vc *VC) heap(st *State, name, sort string) string {
 			a0 := vc.heap(&State{heaps: map[string]string{}}, "$alloc", "Int")
 			switch {
 			case strings.HasPrefix(name, "E|") && sort == "(Array Int (Array Int Int))":
-				vc.emit(fmt.Sprintf("(assert (forall ((qa Int) (qi Int)) (! (< (select (select %s qa) qi) %s) :pattern ((select (select %s qa) qi)))))", n, a0, n))
+				vc.emit(fmt.Sprintf("(assert (forall ((qa Int) (qi Int)) (! (=> (< qa %s) (< (select (select %s qa) qi) %s)) :pattern ((select (select %s qa) qi)))))", a0, n, a0, n))
 			case (strings.HasPrefix(name, "H|") || strings.HasPrefix(name, "C|")) && sort == "(Array Int Int)":
-				vc.emit(fmt.Sprintf("(assert (forall ((qa Int)) (! (< (select %s qa) %s) :pattern ((select %s qa)))))", n, a0, n))
+				vc.emit(fmt.Sprintf("(assert (forall ((qa Int)) (! (=> (< qa %s) (< (select %s qa) %s)) :pattern ((select %s qa)))))", a0, n, a0, n))
 			}
 		}
 	}
@@ -332,8 +332,14 @@ func leafHeapName(p Ptr, leafPath string) string {
 	return p.Root + "|" + joinPath(p.Path, leafPath)
 }
 
+// leafLoc resolves the heap name and base pointer holding leaf `leafPath` of the value at p.
+func leafLoc(p Ptr, leafPath string) (string, Ptr) {
+	q, lp := resolveLeaf(p, leafPath)
+	return leafHeapName(q, lp), q
+}
+
 func (vc *VC) loadLeaf(st *State, p Ptr, l Leaf) string {
-	name := leafHeapName(p, l.Path)
+	name, p := leafLoc(p, l.Path)
 	if l.Typ != nil && isRefType(l.Typ) && l.Sort == "Int" {
 		refHeapNames[name] = true
 	}
@@ -406,8 +412,9 @@ func (vc *VC) store(st *State, p Ptr, t types.Type, v Val) {
 		panic(unsupported("store of whole array value"))
 	}
 	ts := flatT(t, v)
+	p0 := p
 	for i, l := range leaves(t) {
-		name := leafHeapName(p, l.Path)
+		name, p := leafLoc(p0, l.Path)
 		sort := vc.heapSortFor(name, l.Sort)
 		h := vc.heap(st, name, sort)
 		var nh string
@@ -441,7 +448,11 @@ func (vc *VC) fieldPtr(p Ptr, structType types.Type, path []int) Ptr {
 	for _, i := range path {
 		s := under(t).(*types.Struct)
 		f := s.Field(i)
-		out.Path = joinPath(out.Path, f.Name())
+		if _, isStruct := under(f.Type()).(*types.Struct); isStruct && strings.HasPrefix(out.Root, "H|") && out.Path == "" {
+			out = Ptr{Root: ptrRoot(f.Type()), Base: app("sub", out.Base, subID(out.Root, f.Name()))}
+		} else {
+			out.Path = joinPath(out.Path, f.Name())
+		}
 		t = f.Type()
 	}
 	return out
